@@ -210,6 +210,19 @@ class HierDictDocument(DictDocument):
                 if cls_attrs.empty_is_none and inst in (u'', b''):
                     inst = None
 
+                if issubclass(cls, ByteArray):
+                    # binary data, or its text in the encoding that applies: a
+                    # number, a list or a map is neither
+                    encoding = cls_attrs.encoding
+                    if encoding is BINARY_ENCODING_USE_DEFAULT:
+                        encoding = self.binary_encoding
+
+                    if not (isinstance(inst, (six.binary_type, bytearray,
+                                                                   memoryview))
+                            or (encoding is not None
+                                    and isinstance(inst, six.string_types))):
+                        raise ValidationError([key, inst])
+
                 if (validator is self.SOFT_VALIDATION
                                         and isinstance(inst, six.string_types)
                                         and not cls.validate_string(cls, inst)):
